@@ -243,6 +243,9 @@ class Engine:
                 self.oblige(st, f"returns-only-when-not[{exc}]", z3.Not(condfn(SYM, a)), ex.line, "post")
             if c.ensures:
                 post = self._ns({p: st.env[p] for p in c.modifies})
+                # ghost: the final values of the locals (a postcondition may name the witness of an existential, e.g.
+                # the argument dict that was built and handed to a callee); not available on the bounded rung
+                post._locals = self._ns({k: v for k, v in st.env.items() if k not in c.params and "." not in k})
                 r = ex.value
                 if c.returns is not None and not isinstance(c.returns, TNoneT):
                     r = self.coerce(r, c.returns, st, None)
@@ -1022,6 +1025,15 @@ class Engine:
         for e in node.values:
             t = self.truthy(self.eval(e, st))
             terms.append(t)
+            ts = z3.simplify(t)
+            decided = (isinstance(node.op, ast.And) and z3.is_false(ts)) or (isinstance(node.op, ast.Or) and z3.is_true(ts))
+            if not decided and e is not node.values[-1] and not z3.is_true(ts) and not z3.is_false(ts):
+                # decided by the path condition?  (quantifier-free part only, as for path pruning)
+                probe = st.copy()
+                probe.pc += list(st.guards) + [t if isinstance(node.op, ast.And) else z3.Not(t)]
+                decided = not self.feasible(probe)
+            if decided:
+                break  # short circuit: the remaining operands are not evaluated (they may not even be defined)
             st.guards.append(t if isinstance(node.op, ast.And) else z3.Not(t))
         st.guards[:] = saved
         return Val(TBool, z3.And(*terms) if isinstance(node.op, ast.And) else z3.Or(*terms))
